@@ -474,27 +474,39 @@ class Evaluator:
         base = env.get(pl["l"], ("uninit",))
         if base[0] == "mref" and pl["p"] and pl["p"][0] == "*":
             tgt = base[1]
-            proj = [{"f": i, "name": n} for n, i in base[2]] + list(pl["p"][1:])
+            proj = _dec(base[2]) + list(pl["p"][1:])
             env[tgt] = self._update(env.get(tgt, ("uninit",)), proj, val)
             return
         env[pl["l"]] = self._update(base, pl["p"], val)
 
     def _mref_get(self, env, m):
         v = env.get(m[1], ("uninit",))
-        for n, i in m[2]:
-            v = self._project(None, env, v, {"f": i, "name": n})
+        for e in _dec(m[2]):
+            v = self._project(None, env, v, e)
         return v
 
     def _mref_set(self, env, m, val):
-        proj = [{"f": i, "name": n} for n, i in m[2]]
-        env[m[1]] = self._update(env.get(m[1], ("uninit",)), proj, val)
+        env[m[1]] = self._update(env.get(m[1], ("uninit",)), _dec(m[2]), val)
 
     def _update(self, base, proj, val):
         if not proj:
             return val
         e = proj[0]
         if e == "*":
+            if base[0] == "mref":
+                raise Undecided("write through a nested mutable reference")
             return self._update(base, proj[1:], val)
+        if isinstance(e, dict) and "down" in e:
+            vname = e.get("name") or str(e["down"])
+            if len(proj) < 2 or not (isinstance(proj[1], dict) and "f" in proj[1]):
+                raise Undecided("write to a whole enum variant")
+            fname = proj[1].get("name") or str(proj[1]["f"])
+            if base[0] == "adt" and base[2] == vname:
+                fields = tuple((n, self._update(v, proj[2:], val) if n == fname else v) for n, v in base[3])
+                return ("adt", base[1], base[2], fields)
+            if base[0] in ("cases", "ite"):
+                return map_leaves(base, lambda x: self._update(x, proj, val) if not (x[0] == "adt" and x[2] != vname) else x)
+            return ("updv", base, vname, fname, self._update(vfld(base, vname, fname), proj[2:], val))
         if isinstance(e, dict) and "f" in e:
             name = e.get("name") or str(e["f"])
             if base[0] == "adt":
@@ -549,13 +561,15 @@ class Evaluator:
             pl = s["pl"]
             if s.get("bk", "").startswith("Mut"):
                 base = env.get(pl["l"], ("uninit",))
+                okp = lambda es: all(isinstance(e, dict) and ("f" in e or "down" in e) for e in es)
+                enc = lambda es: tuple(("f", e.get("name") or str(e["f"]), e["f"]) if "f" in e else ("d", e.get("name") or str(e["down"]), e["down"]) for e in es)
                 if pl["p"] and pl["p"][0] == "*" and base[0] == "mref":
                     rest = pl["p"][1:]
-                    if all(isinstance(e, dict) and "f" in e for e in rest):
-                        return ("mref", base[1], base[2] + tuple((e.get("name") or str(e["f"]), e["f"]) for e in rest))   # reborrow (of a field)
-                elif all(isinstance(e, dict) and "f" in e for e in pl["p"]) and base[0] != "mref":
-                    # frame-local mutable borrow of a local or of one of its (nested) fields
-                    return ("mref", pl["l"], tuple((e.get("name") or str(e["f"]), e["f"]) for e in pl["p"]))
+                    if okp(rest):
+                        return ("mref", base[1], base[2] + enc(rest))   # reborrow (of a field / enum payload)
+                elif okp(pl["p"]) and base[0] != "mref":
+                    # frame-local mutable borrow of a local or of one of its (nested) fields / enum payloads
+                    return ("mref", pl["l"], enc(pl["p"]))
             return self.read_place(fn, env, pl)         # shared references are transparent (value semantics)
         if r == "bin":
             a = self.operand(fn, env, s["a"])
@@ -611,6 +625,8 @@ class Evaluator:
             raise Undecided("unknown enum " + v[1])
         if v[0] in ("cases", "ite"):
             return map_leaves(v, self.discriminant)
+        if v[0] == "updv":
+            return self.discriminant(v[1])
         return ("discr", v)
 
     def variant_of_discr(self, base, val):
@@ -901,6 +917,14 @@ class Evaluator:
         args = [self.operand(fn, env, a) for a in t["args"]]
         name = callee_name(t)
         declared = t.get("callee") or ""
+        if name == "core::option::Option::<T>::take" and args and args[0][0] == "mref":
+            cur = self._mref_get(env, args[0])
+            self._mref_set(env, args[0], NONE)
+            return cur
+        if name == "core::option::Option::<T>::replace" and args and args[0][0] == "mref":
+            cur = self._mref_get(env, args[0])
+            self._mref_set(env, args[0], some(args[1]))
+            return cur
         if name == RANGE_NEXT and args and args[0][0] == "mref" and not args[0][2]:
             cur = env.get(args[0][1], ("uninit",))
             if cur[0] == "adt" and cur[1] == "core::ops::range::Range":
@@ -985,6 +1009,10 @@ class Evaluator:
 
 
 RANGE_NEXT = "core::iter::range::<impl core::iter::traits::iterator::Iterator for core::ops::range::Range<A>>::next"
+def _dec(proj):
+    return [{"f": e[2], "name": e[1]} if e[0] == "f" else {"down": e[2], "name": e[1]} for e in proj]
+
+
 STD_ENUMS = {"core::option::Option": ["None", "Some"], "core::result::Result": ["Ok", "Err"],
              "core::ops::control_flow::ControlFlow": ["Continue", "Break"]}
 
@@ -1427,6 +1455,10 @@ def is_uom_new(name):
 
 # ---------------------------------------------------------------- rebuilding / substitution
 def vfld(base, variant, name):
+    if base[0] == "updv":
+        if base[2] == variant and base[3] == name:
+            return base[4]
+        return vfld(base[1], variant, name)
     if base[0] == "adt":
         if base[2] == variant:
             for n, v in base[3]:
